@@ -781,6 +781,35 @@ def _loop_over_branch_lists(fn: ast.AST, keep: set[str] | None = None) -> bool:
     return done
 
 
+def _default_rebind(fn: ast.AST, keep: set[str] | None = None) -> bool:
+    """N25: `v = a; if v is None: v = b` with `a` a plain name / attribute and v a new local is `v = a if a is not None else b`
+    (the default-value idiom written as a rebinding)."""
+    done = False
+    for _owner, blk in list(_blocks(fn)):
+        k = 0
+        while k + 1 < len(blk):
+            a, b = blk[k], blk[k + 1]
+            k += 1
+            if not (isinstance(a, ast.Assign) and len(a.targets) == 1 and isinstance(a.targets[0], ast.Name) and _simple(a.value) and not isinstance(a.value, ast.Constant)):
+                continue
+            v = a.targets[0].id
+            if v in (keep or ()) or (isinstance(a.value, ast.Name) and a.value.id == v):
+                continue
+            if not (isinstance(b, ast.If) and not b.orelse and len(b.body) == 1 and isinstance(b.test, ast.Compare) and len(b.test.ops) == 1 and isinstance(b.test.ops[0], ast.Is)
+                    and isinstance(b.test.left, ast.Name) and b.test.left.id == v and isinstance(b.test.comparators[0], ast.Constant) and b.test.comparators[0].value is None):
+                continue
+            c = b.body[0]
+            if not (isinstance(c, ast.Assign) and len(c.targets) == 1 and isinstance(c.targets[0], ast.Name) and c.targets[0].id == v
+                    and not any(isinstance(x, ast.Name) and x.id == v for x in ast.walk(c.value))):
+                continue
+            test = ast.copy_location(ast.Compare(left=copy.deepcopy(a.value), ops=[ast.IsNot()], comparators=[ast.Constant(value=None)]), b.test)
+            a.value = ast.copy_location(ast.IfExp(test=test, body=a.value, orelse=c.value), a.value)
+            ast.fix_missing_locations(a)
+            del blk[k]
+            done = True
+    return done
+
+
 def _collapse_rmw(fn: ast.AST, keep: set[str] | None = None) -> bool:
     """N19: `t = L; t op= e; L = t` (t a temporary used nowhere else, L an attribute or subscript) is `L op= e`:
     the same load, in-place operator and store that the augmented assignment to L performs."""
@@ -847,6 +876,7 @@ def _fold(fn: ast.AST, keep: set[str] | None = None) -> None:
     _loop_over_branch_lists(fn, keep)
     _split_tuple_assigns(fn)
     if isinstance(fn, (ast.FunctionDef, ast.AsyncFunctionDef)):
+        _default_rebind(fn, keep)
         if _split_versions(fn, keep):
             fn._kfv_resplit = True  # type: ignore[attr-defined]
         _const_prop(fn, keep)
